@@ -464,12 +464,18 @@ where
         let ay: &'a U = Box::leak(Box::new(ay));
         let res: Opinion<T, V> = match style {
             "spx" => Abduction::<&'a C, X, Y, T, U>::abduce_with(wy, conds, ax, ay),
-            "ref" => Abduction::<&'a C, X, Y, T, U>::abduce_with(
-                OpinionRef::from((wy, ay)),
-                conds,
-                ax,
-                ay,
-            ),
+            // the opinion forms carry their own base rate on Y, which abduce_with must ignore in favour of `ay`
+            "ref" => {
+                let dummy: &'a U = Box::leak(Box::new(U::tab(|i| *wy.belief.at(i))));
+                Abduction::<&'a C, X, Y, T, U>::abduce_with(OpinionRef::from((wy, dummy)), conds, ax, ay)
+            }
+            "own" => {
+                let w: &'a Opinion<U, V> = Box::leak(Box::new(Opinion::from((
+                    Simplex::new_unchecked(U::tab(|i| *wy.belief.at(i)), wy.uncertainty),
+                    U::tab(|i| *wy.belief.at(i)),
+                ))));
+                Abduction::<&'a C, X, Y, T, U>::abduce_with(w, conds, ax, ay)
+            }
             _ => return Out::Bad(format!("abduce_with: style {style}")),
         };
         Out::Ok(flat_opinion(&res))
